@@ -42,7 +42,7 @@ ASSUMPTIONS = [
     "the port gateway runs with the library's own debug switch for the duty-cycle limiter on (transmit regulation is C11's subject; the bucket is process-global and wall-clock driven)",
     "exceptions reaching the event-loop handler from deferred entity handlers are recorded as information (the statement judges views and the engine)",
 ]
-REQUIRED = {"ops.restore.overlap": 5, "views.after_tx_quiet_period": 3, "histories": 16, "views.read": 2000, "ops.get_state": 50, "ops.restore": 50, "markers.handled": 50, "port.sends": 3, "foreign.checked": 3}
+REQUIRED = {"ops.get_state_while_link_down": 3, "ops.restore.overlap": 5, "views.after_tx_quiet_period": 3, "histories": 16, "views.read": 2000, "ops.get_state": 50, "ops.restore": 50, "markers.handled": 50, "port.sends": 3, "foreign.checked": 3}
 
 MARKER_DEV = "34:000999"
 GWY_ID = "18:006402"
@@ -430,6 +430,24 @@ async def run_history(loop: vloop.VirtualLoop, ctx, h: hist.History, stack: str,
             read_views(ctx, gwy, rig.trail, f"packet {i}")
         if i in op_at:
             await snapshot_ops(rig, rng)
+            if stack == "port" and rng.random() < 0.15:
+                # the serial link drops (dongle unplugged); the application saves its state meanwhile; the link comes
+                # back (the same Gateway is started again): the gateway must receive and send as before
+                from .boundary import serial_patched
+
+                old_port = gwy._vrf_port
+                await gwy.stop()
+                try:
+                    gwy.get_state()
+                    ctx.count("ops.get_state_while_link_down")
+                except Exception as err:  # noqa: BLE001
+                    ctx.violate(vkey("gwy.get_state", err), f"get_state() raised {type(err).__name__} while the link was down", {"error": repr(err)[:200], "last_packets": rig.trail[-6:]})
+                gwy._vrf_port = rig.air.swap_stick(old_port, GWY_ID)
+                with serial_patched():
+                    await gwy.start()
+                await asyncio.sleep(0.3)
+                await rig.marker("snapshot while the link was down, then re-start")
+                await rig.probe_send("snapshot while the link was down, then re-start")
             if stack == "port" and rng.random() < 0.25:
                 # the gateway has transmitted (the probe above) and then stays silent for more than five minutes
                 # (discovery off, or nothing due): the views - the transport's Tx statistics among them - still answer
